@@ -315,7 +315,12 @@ fn run_e1(rep: &Report) -> i32 {
     if o.counters {
         o.api_mode = ApiMode::Counters;
     }
-    e1run::run(rep, &models, &o);
+    let t_base = std::time::Instant::now();
+    if std::env::var("VERIF_SKIP_BASE").is_err() {
+        e1run::run(rep, &models, &o);
+    }
+    rep.count("phase_base_ms", t_base.elapsed().as_millis() as u64);
+    let t_deep = std::time::Instant::now();
     // deep structured universes, table level only, reduced representation set
     {
         use crate::aut::{Cfg, Rep, Sk};
@@ -333,34 +338,45 @@ fn run_e1(rep: &Report) -> i32 {
             "C09" => (all.to_vec(), vec![Explore::Find { anchored: true, earliest: false }, Explore::Walk { anchored: true }]),
             "C11" => (all.to_vec(), vec![Explore::Find { anchored: false, earliest: false }, Explore::Walk { anchored: false }, Explore::Find { anchored: true, earliest: false }]),
             "C14" => (all.to_vec(), vec![Explore::Find { anchored: false, earliest: true }, Explore::Find { anchored: true, earliest: true }]),
-            "C16" => (all.to_vec(), vec![Explore::Contract]),
+            "C16" => (if t { all.to_vec() } else { vec![Kind::Std, Kind::LF] }, vec![Explore::Contract]),
             "C19" => (vec![Kind::Std, Kind::LF], vec![Explore::Work]),
             _ => (vec![], vec![]),
         };
         let ci = rep.property == "C11";
-        let deeps: Vec<Deep> = if ci {
-            vec![
-                Deep { name: "D3ci-aAb", alpha: b"aAb@", minlen: 0, maxlen: 2, k: 3, ci: true },
-                Deep { name: "D2ci-len3", alpha: b"aAb", minlen: 0, maxlen: 3, k: 2, ci: true },
-            ]
+        let subs = |words: Vec<Vec<u8>>, maxk: usize, ci: bool| -> Vec<Deep> { words.into_iter().map(|w| Deep::Subs { word: w, maxk, ci }).collect() };
+        let mut deeps: Vec<Deep> = vec![];
+        if ci {
+            deeps.push(Deep::Tuples { name: "D3ci-aAb@-len2", alpha: b"aAb@", minlen: 0, maxlen: 2, k: 3, ci: true });
+            deeps.push(Deep::Tuples { name: "D2ci-aAb-len3", alpha: b"aAb", minlen: 0, maxlen: 3, k: 2, ci: true });
+            deeps.extend(subs(vec![b"abAB".to_vec(), b"aBab".to_vec(), b"AbaB".to_vec(), b"a@A`".to_vec()], 3, true));
+            if t {
+                deeps.extend(subs(vec![b"abABa".to_vec(), b"aAbBa".to_vec(), b"ABabA".to_vec()], 4, true));
+            }
         } else if t {
-            vec![
-                Deep { name: "D4-ab-len4", alpha: b"ab", minlen: 0, maxlen: 4, k: 4, ci: false },
-                Deep { name: "D3-ab-len5", alpha: b"ab", minlen: 1, maxlen: 5, k: 3, ci: false },
-                Deep { name: "D3-abc-len3", alpha: b"abc", minlen: 0, maxlen: 3, k: 3, ci: false },
-                Deep { name: "D4-abc-len2", alpha: b"abc", minlen: 1, maxlen: 2, k: 4, ci: false },
-            ]
+            deeps.push(Deep::Tuples { name: "D4-ab-len4", alpha: b"ab", minlen: 0, maxlen: 4, k: 4, ci: false });
+            deeps.push(Deep::Tuples { name: "D3-ab-len5", alpha: b"ab", minlen: 1, maxlen: 5, k: 3, ci: false });
+            deeps.push(Deep::Tuples { name: "D3-abc-len3", alpha: b"abc", minlen: 0, maxlen: 3, k: 3, ci: false });
+            deeps.push(Deep::Tuples { name: "D4-abc-len2", alpha: b"abc", minlen: 1, maxlen: 2, k: 4, ci: false });
+            deeps.extend(subs(e1run::rg_words(4), 4, false));
+            deeps.extend(subs(e1run::rg_words(5), 4, false));
+        } else if ["C04", "C16", "C19"].contains(&rep.property.as_str()) {
+            // these step the noncontiguous NFA through its (slow) leftmost
+            // post-match states: smaller universes in the quick tier
+            deeps.push(Deep::Tuples { name: "D3-ab-len3", alpha: b"ab", minlen: 0, maxlen: 3, k: 3, ci: false });
+            deeps.push(Deep::Tuples { name: "D3-abc-len2", alpha: b"abc", minlen: 0, maxlen: 2, k: 3, ci: false });
+            deeps.extend(subs(e1run::rg_words(4), 3, false));
         } else {
-            vec![
-                Deep { name: "D4-ab-len3", alpha: b"ab", minlen: 0, maxlen: 3, k: 4, ci: false },
-                Deep { name: "D3-ab-len4", alpha: b"ab", minlen: 1, maxlen: 4, k: 3, ci: false },
-                Deep { name: "D3-abc-len2", alpha: b"abc", minlen: 0, maxlen: 2, k: 3, ci: false },
-            ]
-        };
-        if !explores.is_empty() {
+            deeps.push(Deep::Tuples { name: "D4-ab-len3", alpha: b"ab", minlen: 0, maxlen: 3, k: 4, ci: false });
+            deeps.push(Deep::Tuples { name: "D3-ab-len4", alpha: b"ab", minlen: 1, maxlen: 4, k: 3, ci: false });
+            deeps.push(Deep::Tuples { name: "D3-abc-len2", alpha: b"abc", minlen: 0, maxlen: 2, k: 3, ci: false });
+            deeps.extend(subs(e1run::rg_words(4), 4, false));
+            deeps.extend(subs(vec![b"abcde".to_vec(), b"zyxwv".to_vec(), b"abcab".to_vec(), b"aabab".to_vec(), b"zyxzy".to_vec(), b"abcba".to_vec()], 3, false));
+        }
+        if !explores.is_empty() && std::env::var("VERIF_SKIP_DEEP").is_err() {
             e1run::run_deep(rep, &deeps, &kinds, &explores, &reps);
         }
     }
+    rep.count("phase_deep_ms", t_deep.elapsed().as_millis() as u64);
     let states = rep.get("states");
     let transitions = rep.get("transitions");
     let cov = J::obj()
